@@ -143,6 +143,48 @@ def holds(name, cond, family='', extra=(), meta=None):
     return Obligation(name, z3.Not(cond), family, None, extra, meta)
 
 
+def definedness(ctx, since=0, family='divisors are non-zero', meta=None, label=''):
+    """one obligation per distinct (denominator, path condition) recorded since position `since`
+    of ctx.divs: the denominator cannot be zero on the domain under the path condition at which
+    the code divides by it. A reciprocal is introduced as a fresh r with r*d = 1, which silently
+    EXCLUDES the inputs where d = 0 from every other obligation: without this family a division
+    that is singular inside the claimed domain would pass vacuously."""
+    out, seen = [], set()
+    for c0, pc, key in ctx.divs[since:]:
+        k = (key, tuple(c.get_id() for c in pc))
+        if k in seen:
+            continue
+        seen.add(k)
+        m = dict(meta or {})
+        m['backward_slice'] = True      # only the definitions the divisor DEPENDS on: never the r*d = 1 of its own reciprocal
+        out.append(Obligation('%sdivisor %s is non-zero' % (label, str(z3.simplify(c0))[:90].replace('\n', ' ')), c0 == 0, family, None, list(pc), m))
+    return out
+
+
+def backward_cons(terms, ctx):
+    """defining constraints of exactly the auxiliary variables `terms` depend on (transitively,
+    through their definitions); constraints that mention any other auxiliary variable - such as
+    the defining equation of a reciprocal OF the term - are left out"""
+    need = needed_aux(terms, ctx)
+    # a (sin, cos) pair is one object: both members and the pair's own constraints belong together
+    pairs = [(str(a), str(b), arg) for (a, b, arg) in ctx.trig.values()]
+    changed = True
+    while changed:
+        changed = False
+        for a, b, arg in pairs:
+            if (a in need) != (b in need):
+                need |= {a, b} | needed_aux([arg], ctx)
+                changed = True
+    out = []
+    for c in ctx.cons:
+        aux = {n for n in S._vars_of(c) if '!' in n}
+        if aux and aux <= need:
+            out.append(c)
+        elif not aux:
+            out.append(c)
+    return out
+
+
 _JOB = None
 _SLICE_CACHE = {}
 
@@ -224,7 +266,10 @@ def _solve(i):
     s = z3.Solver()
     s.set('timeout', timeout_ms)
     s.set('max_memory', 4000)
-    s.add(sliced_cons([e] + list(ob.extra), ctx) if os.environ.get('PVF_NO_SLICE') != '1' else ctx.cons)
+    if ob.meta and ob.meta.get('backward_slice'):
+        s.add(backward_cons([e] + list(ob.extra), ctx))
+    else:
+        s.add(sliced_cons([e] + list(ob.extra), ctx) if os.environ.get('PVF_NO_SLICE') != '1' else ctx.cons)
     s.add(ctx.dom)
     s.add(ob.extra)
     s.add(e)
@@ -292,7 +337,7 @@ def discharge(obls, timeout_s=30, pool=16, ctx=None):
 def smt2_text(ob, ctx=None):
     ctx = ctx or S.C
     s = z3.Solver()
-    s.add(ctx.cons)
+    s.add(backward_cons([ob.neg] + list(ob.extra), ctx) if (ob.meta and ob.meta.get('backward_slice')) else ctx.cons)
     s.add(ctx.dom)
     s.add(ob.extra)
     s.add(ob.neg)
@@ -323,12 +368,18 @@ def second_opinion(ob, ctx=None, timeout_s=60, binary='/usr/bin/z3'):
 # ------------------------------------------------------------------------------------------
 # sampling points of the domain and numeric triage
 # ------------------------------------------------------------------------------------------
-def sample_point(names, box, rng, extra=None):
-    """seeded point: box maps variable name -> (lo, hi); others default to (-1, 1)"""
+def sample_point(names, box, rng, extra=None, edge=False):
+    """seeded point: box maps variable name -> (lo, hi); others default to (-1, 1). With `edge`
+    every coordinate is drawn, with probability 1/2, from the outer 1 % of its range (defects that
+    live at the rim of the claimed domain are missed by uniform sampling)"""
     pt = {}
     for n in sorted(names):
         lo, hi = box.get(n, (-1.0, 1.0))
-        pt[n] = rng.uniform(lo, hi)
+        if edge and rng.random() < 0.5:
+            w = 0.01 * (hi - lo)
+            pt[n] = rng.uniform(lo, lo + w) if rng.random() < 0.5 else rng.uniform(hi - w, hi)
+        else:
+            pt[n] = rng.uniform(lo, hi)
     if extra:
         pt.update(extra)
     return pt
@@ -357,6 +408,13 @@ class AReport:
         if timeout_s is None:
             timeout_s = 30 if run.tier == 'quick' else 300
         t0 = time.time()
+        if os.environ.get('PVF_DEFINEDNESS_DIAG') and not expect_sat:
+            pos = getattr(ctx, '_div_pos', 0)
+            dob = definedness(ctx, pos)
+            ctx._div_pos = len(ctx.divs)
+            dres = discharge(dob, timeout_s=20, ctx=ctx)
+            for ob, r in zip(dob, dres):
+                print('  DEFDIAG %s %s %.1fs pc=%d' % (r['result'], ob.name[:140], r['secs'], len(ob.extra)), flush=True)
         if not expect_sat:
             obls = self.drop_vacuous(obls, ctx)
         res = discharge(obls, timeout_s=timeout_s, ctx=ctx)
@@ -628,6 +686,9 @@ class AReport:
                 path = common.write_replay(prop, spec)
                 run.violation('%s; real code: %s' % (ob.name, r.get('detail')), path)
             else:
+                self.unreproduced = getattr(self, 'unreproduced', 0) + 1
+                if not hasattr(self, 'first_unreproduced'):
+                    self.first_unreproduced = ob.name
                 run.error('obligation "%s" fails symbolically (residual %.3g at %s) but the compiled code satisfies the numeric oracle - inconclusive' % (
                     ob.name, spec['residual_symbolic'], spec['point']))
 
@@ -657,7 +718,16 @@ class AReport:
                 run.error('oracle self-check failed to run (%s): %s' % (sp.get('check'), r['error']))
             elif r.get('violated'):
                 bad += 1
-                if not run.violations:
+                if not run.violations and getattr(self, 'unreproduced', 0):
+                    # obligations failed symbolically, their own replays did not reproduce, but an
+                    # oracle of the same property fails on the compiled code of this tree: that is a
+                    # concrete failing run of the real code, reported as the violation
+                    sp2 = dict(sp)
+                    sp2['observed'] = r.get('detail') or r.get('failed')
+                    path = common.write_replay(prop, sp2)
+                    run.violation('%d obligation(s) fail symbolically (first: %s) and the numeric oracle "%s" fails on the compiled code: %s' % (
+                        self.unreproduced, getattr(self, 'first_unreproduced', '?'), sp.get('check'), str(sp2['observed'])[:300]), path)
+                elif not run.violations:
                     run.error('numeric oracle reports a failure on the tree being checked where the symbolic check holds (%s at %s): %s' % (
                         sp.get('check'), str(sp.get('point'))[:200], str(r.get('detail') or r.get('failed'))[:300]))
         run.cov['oracle_selfcheck_points'] = run.cov.get('oracle_selfcheck_points', 0) + len(full)
@@ -701,8 +771,15 @@ class AReport:
                     pt[n] = a / b
             if len(pt) == len(names):
                 pts.append(pt)
-        for _ in range(tries):
-            pts.append(sample_point(names, box, self.rng, self.consts))
+            elif pt:
+                # the query was sliced: inputs it does not mention are free - complete the model
+                # with seeded values (several completions)
+                for _ in range(8):
+                    q = sample_point(names, box, self.rng, self.consts)
+                    q.update(pt)
+                    pts.append(q)
+        for k_ in range(tries):
+            pts.append(sample_point(names, box, self.rng, self.consts, edge=(k_ % 3 == 2)))
         found = []
         for pt in pts:
             pt = dict(pt)
